@@ -40,3 +40,9 @@ IO/Num.vos IO/Num.vok IO/Num.required_vos: IO/Num.v
 IO/NumSound.vo IO/NumSound.glob IO/NumSound.v.beautified IO/NumSound.required_vo: IO/NumSound.v IO/Num.vo
 IO/NumSound.vio: IO/NumSound.v IO/Num.vio
 IO/NumSound.vos IO/NumSound.vok IO/NumSound.required_vos: IO/NumSound.v IO/Num.vos
+IO/Equiv.vo IO/Equiv.glob IO/Equiv.v.beautified IO/Equiv.required_vo: IO/Equiv.v Base/QSum.vo LP/User.vo
+IO/Equiv.vio: IO/Equiv.v Base/QSum.vio LP/User.vio
+IO/Equiv.vos IO/Equiv.vok IO/Equiv.required_vos: IO/Equiv.v Base/QSum.vos LP/User.vos
+IO/Bounds.vo IO/Bounds.glob IO/Bounds.v.beautified IO/Bounds.required_vo: IO/Bounds.v Base/QSum.vo
+IO/Bounds.vio: IO/Bounds.v Base/QSum.vio
+IO/Bounds.vos IO/Bounds.vok IO/Bounds.required_vos: IO/Bounds.v Base/QSum.vos
